@@ -1,7 +1,9 @@
 //! vh — the Rust side of the binding between ClapSpec (TLA+) and clap.
 //! Every subcommand reads/writes NDJSON or a JSON report; see /verif/DESIGN.md §3.
 mod complete;
+mod corpus;
 mod def;
+mod derive;
 mod gen;
 mod help;
 mod hist;
@@ -58,6 +60,7 @@ fn main() {
         "gen-replay" => gen::gen_replay(&arg(&args, "--defs", ""), &input, &out, &div, &arg(&args, "--work", "/tmp/vh-gen")),
         "gen-show" => gen::gen_show(&arg(&args, "--defs", ""), &arg(&args, "--label", ""), &arg(&args, "--shell", "bash")),
         "quote-replay" => quote::quote_replay(&input, &out, &div),
+        "derive-replay" => derive::derive_replay(&arg(&args, "--defs", ""), &input, &out, &div),
         "c04-record" => values::c04_record(seed, n, &out),
         "c20-replay" => wrap::c20_replay(&input, &out, &div),
         "c20-record" => wrap::c20_record(seed, n, arg(&args, "--maxlen", "120").parse().unwrap(), &out),
